@@ -235,7 +235,10 @@ func (self ValueList) iterReset() {
 }
 
 func (self ValueList) IntoIter() func() (Value, bool) {
-	return self.iterNext
+	// Every loop owns its cursor and iterates over a snapshot of the elements (the VM clones before `into_iter`)
+	snapshot := make([]*Value, len(*self.Values))
+	copy(snapshot, *self.Values)
+	return (*NewValueList(snapshot)).(ValueList).iterNext
 }
 
 func NewValueList(values []*Value) *Value {
